@@ -26,6 +26,9 @@ EXTRA = {'C02-viterbi-star-unit-cycle': ['C02', 'C08', 'C09'], 'C09-viterbi-star
          'C10-method-name-identity-dispatch': ['C10', 'C05'], 'C13-multi-tol0-absent-numeric-zero': ['C13', 'C02'],
          'C01-real-einsum-nan-fixup-guard': ['C01', 'C07'], 'C01-log-from-int-single-precision': ['C01', 'C08'], 'C09-default-to-dense-test-counts-axes': ['C09', 'C07'],
          'C12-fgg-copy-shares-rule-lists': ['C12', 'C16'], 'C12-scc-cross-edge-lowlink': ['C12', 'C19'], 'C03-jprecompute-skips-outside-nonterminals': ['C03', 'C11'],
+         'C03-jlog-skip-outside-nonterminals': ['C03', 'C11'], 'C11-log-from-int-default-precision': ['C11', 'C08'], 'C06-logical-and-wrong-identity': ['C06', 'C08'],
+         'C12-disconnected-domain-size-cached': ['C12', 'C01'], 'C16-fgg-copy-shares-factors': ['C16', 'C18'], 'C02-allclose-default-zero': ['C02', 'C13'],
+         'C07-zero-check-output-axes-only': ['C07', 'C01'],
          'C11-solve-skip-zero-row-not-semiring-zero': ['C11', 'C09'], 'C11-jacobian-memo-ignores-attachment-order': ['C11', 'C03']}
 res_path = os.path.join(V, 'seeded', 'RESULTS.json')
 results = json.load(open(res_path)) if os.path.exists(res_path) else {}
@@ -54,5 +57,9 @@ for name in names:
     meta['what_i_ran'] = {'confirmation': 'tools/confirm_mutant.sh in a scratch worktree: demo passes on the clean tree, fails with the patch, full test-suite (110 tests) passes with the patch', 'confirmation_result': conf,
                           'detection': 'tools/run_mutant.sh seeded/%s/patch.diff %s  (quick tier against a scratch worktree with the patch applied)' % (name, ' '.join(pids)), 'detection_result': results[name]}
     json.dump(meta, open(mp, 'w'), indent=1)
-    json.dump(results, open(res_path, 'w'), indent=1, sort_keys=True)
+    import fcntl
+    with open(res_path + '.lock', 'w') as lk:   # several matrix.py processes may run side by side
+        fcntl.flock(lk, fcntl.LOCK_EX)
+        cur = json.load(open(res_path)); cur[name] = results[name]; results = cur
+        json.dump(results, open(res_path, 'w'), indent=1, sort_keys=True)
     print(name, results[name]['detected_by'], results[name]['wall_s'], flush=True)
